@@ -140,12 +140,13 @@ Proof.
   induction bk as [|c0 bk IH]; simpl; intros st b c st' b' c' H I.
   - inversion H; subst. split; auto. split; auto. split; auto.
     intros e en' He A. split; [exists en'; auto|tauto].
-  - assert (I1 : INV (clean_cache c0 st)) by (apply (step_INV st (LCleanCache c0)); simpl; auto).
+  - rewrite clean_cache_v_repaired in H.
+    assert (I1 : INV (clean_cache c0 st)) by (rewrite <- clean_cache_v_repaired; apply (step_INV st (LCleanCache c0)); simpl; auto).
     destruct (IH _ _ _ _ _ _ H I1) as (I' & G & T & E). simpl in G, T.
     split; auto. split; auto. split; auto.
     intros e en' He A. destruct (E e en' He A) as [(en1 & A1 & B1 & K1 & G1) Hr]. simpl in A1, Hr.
     rewrite nth_error_map in A1. destruct (nth_error (entries st) e) as [en|] eqn:E0; [|discriminate].
-    simpl in A1. destruct (stale_in c0 (gens st) en) eqn:S; inversion A1; subst en1; [simpl in B1; discriminate|].
+    simpl in A1. unfold delete_stale_in in A1. destruct (stale_in c0 (gens st) en) eqn:S; inversion A1; subst en1; [simpl in B1; discriminate|].
     split; [exists en; auto|].
     intros [Heq|Hin]; auto.
     unfold stale_in in S. rewrite B1 in S.
@@ -188,7 +189,7 @@ Proof.
   induction ls; intros st st' H; unfold run in H; simpl in H.
   - inversion H; auto.
   - destruct (step_v repaired st a) as [st1|] eqn:E; [|discriminate]. rewrite (IHls _ _ H).
-    clear - E. destruct a; simpl in E; try (inversion E; subst; reflexivity).
+    clear - E. destruct a; simpl in E; try rewrite clean_cache_v_repaired in E; try (inversion E; subst; reflexivity).
     + unfold step_thread in E.
       repeat match type of E with
              | context [match ?x with _ => _ end] => destruct x eqn:?; try discriminate
